@@ -448,6 +448,7 @@ let run_ksim (dump : Stdlib.String.t list) (hist : Stdlib.String.t) (out : Buffe
   let tick = ref 0 in
   let pending = ref [] in
   let loop_mode = ref None in
+  let iter_open = ref false in
   (try
     List.iter (fun tok ->
       if tok <> "" then begin
@@ -458,6 +459,11 @@ let run_ksim (dump : Stdlib.String.t list) (hist : Stdlib.String.t) (out : Buffe
           let code = n_of_int (int_of_string rest) in
           if os_from_u16 code = None then () else
           let ev = (match kind with 'd' -> IPress code | 'u' -> IRelease code | 'r' -> IRepeat code | _ -> ITap code) in
+          (* loop mode: one iteration of the processing loop = idle bookkeeping, the input events that arrived, one millisecond *)
+          (match !loop_mode with
+           | Some _ when not !iter_open ->
+             let (k', _) = k_can_block cfg !k (n_of_int 1) in k := k'; iter_open := true
+           | _ -> ());
           let (k', evs) = unwrap (k_input cfg !k ev) in
           k := k';
           if kind = 'r' then
@@ -479,6 +485,7 @@ let run_ksim (dump : Stdlib.String.t list) (hist : Stdlib.String.t) (out : Buffe
           for _ = 1 to int_of_string rest do
             let blocked = (match !loop_mode with
               | None -> false
+              | Some _ when !iter_open -> iter_open := false; false
               | Some honour ->
                 let (k', cb) = k_can_block cfg !k (n_of_int 1) in
                 k := k'; (cb && zidle ()) && honour) in
